@@ -307,6 +307,33 @@ def c19(tier, seed):
 SPARSE_PRODUCT = []
 
 
+def c03(tier, seed):
+    res = Result("C03", tier, seed)
+    core.build()
+    q = tier == "quick"
+    mc_cfg(res, "NutsMC_kv", inv=["MCReopenInv", "TypeOK"], props=[], timeout=1800)
+    path, g, n = core.gen_transitions("DsGen_kvpage.cfg", {} if q else {"MaxLen": "= 5"}, timeout=1800)
+    res.add_mc("DsGen_kvpage", g)
+    res.extra["emitted_transitions"] = n
+    shards = [["@replay", "-in", path, "-mode", "tx", "-idx", m, "-batch", "8", "-seed", str(seed)] for m in ("keyval", "keyonly")] + SPARSE_PAGE(path, seed)
+    for mode in ("keyval", "keyonly"):
+        shards += fam_shards([("page", ["-mode", mode])], seed, 1 if q else 12, 2 if q else 3, 30 if q else 80)
+    rs = core.drive_and_validate(res, shards, core.dev_set(), "a paginated scan returned something else than the live keys with the prefix after skipping offset, at most limit",
+                                 "every status assignment (absent/live/deleted/expired) of a small key universe x every (prefix, offset, limit, regexp), enumerated by TLC and replayed; random histories with paged scans over 41 keys")
+    res.cov["samples"] = core.sample_events(path, 3) + core.sample_events(rs[0]["trace"], 4, ops={"pscan", "psscan"})
+    res.cov["exhaustive"] = True
+    res.cov["distinct_nontrivial"] = n
+    res.cov["rule"] = ("every (state, query) pair of the bounded DsGen kvpage model is emitted once by TLC and executed in each index mode; TLC then "
+                       "validates each recorded page against KVSpec!PageOK on the state built from the recorded puts and deletes")
+    res.assumptions += ["exhaustive for 4 (quick) / 5 (thorough) keys with nested prefixes, offsets 0..n+1, limits -1..n+1, prefixes {'', a, ab, b, c}, 4 regular expressions",
+                        "limit 0 fixes no count in the statement: any prefix of the remaining keys is admitted"]
+    return res.finish()
+
+
+def SPARSE_PAGE(path, seed):
+    return []
+
+
 def c15(tier, seed):
     res = Result("C15", tier, seed)
     core.build()
@@ -325,7 +352,7 @@ def c15(tier, seed):
     return res.finish()
 
 
-CHECKS = {"C19": c19, "C04": c04, "C10": c10, "C11": c11, "C16": c16, "C09": c09, "C15": c15, "C01": c01, "C05": c05, "C06": c06, "C07": c07, "C08": c08, "C12": c12, "C13": c13}
+CHECKS = {"C03": c03, "C19": c19, "C04": c04, "C10": c10, "C11": c11, "C16": c16, "C09": c09, "C15": c15, "C01": c01, "C05": c05, "C06": c06, "C07": c07, "C08": c08, "C12": c12, "C13": c13}
 
 
 def main(argv):
